@@ -3,6 +3,7 @@
 package scenlib
 
 import (
+	"runtime"
 	"fmt"
 	"time"
 
@@ -89,6 +90,10 @@ func Job(id int, kind string, g *Gauge) func() {
 		case "panic-nilptr": // panics with a typed nil pointer (e.g. panic(err) where err is a nil *MyError)
 			g.Cur--
 			panic((*Gauge)(nil))
+		case "goexit": // ends its goroutine without returning and without a panic (runtime.Goexit: what testing.T.FailNow does)
+			vsched.Event("end", id)
+			g.Cur--
+			runtime.Goexit()
 		case "timed-panic": // takes 5 virtual ms, then panics
 			time.Sleep(5 * time.Millisecond)
 			g.Cur--
